@@ -53,9 +53,24 @@ Conds == {CondCase(c, Num(10), Num(20), "", "") : c \in Logicals}
          \cup {CondCase(c, Var("x"), Bin("+", Var("y"), Num(1)), "", "") : c \in L2 \cup L3}
          \cup {CondCase(c, Num(1), Neg(Num(1)), "2*(", ")") : c \in Reps \cup L3}
          \cup {CondCase(c, Var("x"), Var("y"), "1+(", ")") : c \in Reps \cup L3}
+\* ---- parameters and external functions ----
+Envs == {[p |-> ep, q |-> eq, f |-> ef] :
+           ep \in {Num(3), Bin("+", Num(1), Num(2))},
+           eq \in {Bin("*", Var("p"), Num(2)), Bin("-", Num(1), Var("p"))},
+           ef \in {Bin("+", Bin("*", Var("u"), Var("u")), Num(1)), Bin("-", Var("u"), Var("p")), Bin("*", Var("q"), Var("u"))}}
+DLeaves == {Var("x"), Var("y"), Var("p"), Var("q"), Num(2)}
+DArgs == DLeaves \cup {Bin("+", Var("x"), Var("p")), Bin("*", Var("q"), Var("y"))}
+DTrees == {Bin(op, a, b) : op \in {"+", "-", "*", "/"}, a \in DLeaves, b \in DLeaves}
+          \cup {Call(a) : a \in DArgs} \cup {Bin(op, Call(a), b) : op \in {"+", "*", "/"}, a \in DArgs, b \in {Var("p"), Var("x")}}
+          \cup {Call(Call(a)) : a \in DLeaves} \cup {Neg(Call(Neg(a))) : a \in DLeaves}
+DepCase(g, env) ==
+  LET v0 == Val(Resolved(g, env, env.p)) IN
+  [kind |-> "deps", formula |-> PrMin(g, ""), pf |-> PrMin(env.p, ""), qf |-> PrMin(env.q, ""), ff |-> PrMin(env.f, ""),
+   ok0 |-> v0[1], n0 |-> v0[2][1], d0 |-> v0[2][2], direct |-> DependsOn(g, "p")]
+Deps == {c \in {DepCase(g, env) : g \in DTrees, env \in Envs} : c.ok0}
 Number(S) == LET s == SetToSeq(S) IN [i \in 1..Len(s) |-> [id |-> i] @@ s[i]]
 ASSUME Theorems
-ASSUME ndJsonSerialize(IOEnv.OUT, Number(Arith \cup Fn \cup Reject \cup Silent \cup Conds))
+ASSUME ndJsonSerialize(IOEnv.OUT, Number(Arith \cup Fn \cup Reject \cup Silent \cup Conds \cup Deps))
 ASSUME \A c \in Conds : c.innerden = 1
-ASSUME PrintT(<<"GEN", Cardinality(Arith), Cardinality(Fn), Cardinality(Reject), Cardinality(Conds)>>)
+ASSUME PrintT(<<"GEN", Cardinality(Arith), Cardinality(Fn), Cardinality(Reject), Cardinality(Conds), Cardinality(Deps)>>)
 =============================================================================
